@@ -52,12 +52,12 @@ def run(ctx):
             at = rng.randrange(len(lines) + 1)
             lines[at:at] = [l] * 6
         env = dict(os.environ, VERIF_CONC=str(g), GOMAXPROCS=str(gmp), GORACE="halt_on_error=0 exitcode=66")
-        outs, err, rc = run_raw(h, lines, env=env, timeout=900)
+        outs, err, rc = run_raw(h, lines, env=env, timeout=600)
         mod = run_lines(m, lines, env=model_env())
         key = "G=%d GOMAXPROCS=%d" % (g, gmp)
         if rc is None:
             ctx.violation("concurrent run did not terminate (hang) " + key, {"case": key, "lines": lines, "conc": g, "gomaxprocs": gmp})
-            continue
+            break    # every further run would cost another full watchdog period
         if "DATA RACE" in err:
             ctx.violation("data race reported by the race detector " + key,
                           {"case": key, "lines": lines, "conc": g, "gomaxprocs": gmp, "race_report": err[:6000]})
